@@ -238,4 +238,126 @@ Section SearchP.
       - destruct (first_min_cost g0 gl) as [c1 s1] eqn:Em. eapply Hg. right. exact Hin.
     Qed.
   End Driver.
+
+  (* ---------------- no assertion fails, ValueError only from a missing greedy state ---------------- *)
+  Definition benign {A} (o : out A) : Prop := match o with Ref | Crash => False | _ => True end.
+
+  Lemma extract_min_some l : l <> [] -> exists e rest, extract_min l = Some (e, rest).
+  Proof.
+    destruct l as [|x l]; [congruence|]. intros _. simpl.
+    destruct (extract_min_from x [] l) as [e rest]. eauto.
+  Qed.
+
+  Section Total.
+    Variable tape : nat -> Q.
+    Variable max_gamma : Q.
+    Variable max_backjumps : option nat.
+
+    Lemma pass_loop_benign M fuel b pd :
+      BGood M b -> benign (pass_loop tape fa max_gamma max_backjumps fuel b pd).
+    Proof.
+      revert b pd; induction fuel as [|f IH]; intros b pd B; simpl.
+      - destruct (negb _); exact I.
+      - destruct (negb _) eqn:Ec; [exact I|].
+        destruct (pq b) as [|x l] eqn:Ep; [simpl in Ec; discriminate|].
+        destruct (extract_min_some (x :: l)) as (e & rest & Ex); [discriminate|]. rewrite Ex.
+        assert (He : In e (pq b) /\ forall y, In y rest -> In y (pq b)).
+        { rewrite Ep. simpl in Ex. inversion Ex as [Ex'].
+          destruct (extract_min_from_spec _ _ _ _ _ Ex') as (H1 & H2 & _). split; [exact H1|]. intros y Hy.
+          apply H2 in Hy. simpl in Hy. exact Hy. }
+        destruct He as [He Hrest].
+        assert (Ge : Good M (q_state e)) by (now apply B).
+        set (b0 := mkB rest (pushes b) (upperbound b) (min_reached b) (n_visited b) (n_next b) (n_enq b)
+                       (n_backjumps b) (pen_stats b) (n_pushback b)).
+        assert (B0 : BGood M b0) by (intros y Hy; apply B, Hrest, Hy).
+        assert (B1 : BGood M (update_minimum_reached b0 (q_cost e))).
+        { unfold update_minimum_reached. destruct (upperbound b0); [destruct (Qleb _ _)|]; auto. }
+        destruct (cost_bounds_exceeded _ _ _); [exact I|].
+        destruct (goal_state fa (q_state e)) eqn:Eg; [exact I|].
+        destruct Ge as [pl Iv].
+        destruct (next_states_ok names W HW Hnames gates Hgates acts fa Hfa_g Hfa_W Hfa_a M _ pl Iv Eg) as (l0 & Hl0 & Hall).
+        rewrite Hl0. cbn [obind]. apply IH. apply bfs_put_good.
+        + eapply BGood_same_pq; [|exact B1]. reflexivity.
+        + intros s Hs. destruct (Hall s Hs) as (k & _ & I'). eexists; eauto.
+    Qed.
+
+    Lemma cutopt_pass_ref fuel co :
+      COGood co ->
+      match cutopt_pass tape fa max_gamma max_backjumps fuel co with
+      | Ref => co_greedy co = None
+      | Crash => False
+      | Val (co', _) => co_greedy co' = co_greedy co
+      | NoFuel => True
+      end.
+    Proof.
+      intros [[M B] G]. unfold cutopt_pass, engine_pass.
+      pose proof (pass_loop_benign M fuel (co_engine co) None B) as Hb.
+      destruct (pass_loop _ _ _ _ _ _ _) as [[b r0]| | |]; cbn [obind]; try contradiction; try exact I.
+      destruct r0 as [[s c]|]; [reflexivity|].
+      destruct (co_returned co); [reflexivity|]. destruct (co_greedy co); reflexivity.
+    Qed.
+
+    Lemma driver_loop_ref passes fuel co acc :
+      COGood co ->
+      match driver_loop tape fa max_gamma max_backjumps passes fuel co acc with
+      | Ref => co_greedy co = None
+      | Crash => False
+      | _ => True
+      end.
+    Proof.
+      revert co acc; induction passes as [|p IH]; intros co acc C; simpl; [exact I|].
+      pose proof (cutopt_pass_ref fuel co C) as Hp.
+      destruct (cutopt_pass _ _ _ _ _ _) as [[co1 r]| | |] eqn:Ep; cbn [obind]; auto.
+      destruct (cutopt_pass_good _ _ _ _ _ _ _ C Ep) as (C1 & _).
+      destruct r as [[s c]|]; [|exact I].
+      specialize (IH co1 (acc ++ [(c, s)]) C1). rewrite Hp in IH. exact IH.
+    Qed.
+
+    Lemma optimize_ref fuel :
+      match optimize tape fa max_gamma max_backjumps (length names) fuel with
+      | Ref => greedy_cut_optimization (length names) fa = Val None
+      | Crash => False
+      | _ => True
+      end.
+    Proof.
+      unfold optimize.
+      destruct (cutopt_init tape fa max_gamma (length names)) as [co| | |] eqn:Ei; cbn [obind].
+      - pose proof (cutopt_init_good _ _ _ Ei) as C.
+        pose proof (driver_loop_ref (S fuel) fuel co [] C) as Hd.
+        assert (Egr : greedy_cut_optimization (length names) fa = Val (co_greedy co)).
+        { unfold cutopt_init in Ei. destruct (greedy_cut_optimization (length names) fa) as [gr| | |]; cbn [obind] in Ei; try discriminate.
+          inversion Ei; subst. reflexivity. }
+        destruct (driver_loop _ _ _ _ _ _ _ _) as [[co' goals]| | |]; cbn [obind]; auto.
+        + destruct goals; exact I.
+        + now rewrite Egr, Hd.
+      - exfalso. unfold cutopt_init, greedy_cut_optimization in Ei. rewrite Hfa_g in Ei.
+        destruct (greedy_total (length names + max_wire_cuts_circuit gates) (length gates)
+                    (init_state (length names) (max_wire_cuts_circuit gates))) as (r & Hr).
+        + exists []. apply Inv_init; auto.
+        + cbn. lia.
+        + rewrite Hr in Ei. discriminate.
+      - exfalso. unfold cutopt_init, greedy_cut_optimization in Ei. rewrite Hfa_g in Ei.
+        destruct (greedy_total (length names + max_wire_cuts_circuit gates) (length gates)
+                    (init_state (length names) (max_wire_cuts_circuit gates))) as (r & Hr).
+        + exists []. apply Inv_init; auto.
+        + cbn. lia.
+        + rewrite Hr in Ei. discriminate.
+      - exact I.
+    Qed.
+  End Total.
+
+  (* a greedy pass that ends without a state stopped at a dead end: a reachable non-goal state without successors *)
+  Lemma greedy_none M fuel s :
+    Good M s -> greedy fuel fa s = Val None ->
+    exists s' pl, Inv M s' pl /\ goal_state fa s' = false /\ next_states fa s' = Val [].
+  Proof.
+    revert s; induction fuel as [|f IH]; intros s G H; simpl in H.
+    - destruct (goal_state fa s); discriminate.
+    - destruct (goal_state fa s) eqn:Eg; [discriminate|].
+      destruct (next_states fa s) as [l| | |] eqn:En; cbn [obind] in H; try discriminate.
+      destruct l as [|s0 l].
+      + destruct G as [pl Iv]. exists s, pl. auto.
+      + apply (IH (first_min s0 l)); auto.
+        eapply (Good_next names W HW Hnames gates Hgates acts fa Hfa_g Hfa_W Hfa_a); eauto. apply first_min_in.
+  Qed.
 End SearchP.
